@@ -74,7 +74,13 @@ Definition akeys {A} (l : list (string * A)) : list string := map fst l.
 Inductive item :=
 | ITask (t : taskinfo) (name : option string) (aliases : list string) (default : option bool)
 | ISub (cname : option string) (auto_dash : bool) (config : tree) (items : list item)
-       (bind : option string) (default : bool).
+       (bind : option string) (default : bool)
+(** A module object [modname] whose explicit namespace [ns] is the collection
+    built by [nsitem], re-imported with [Collection.from_module(module,
+    auto_dash_names=ad)] (what [Program.load_collection] does for the root and
+    [add_collection(module)] for a nested one) and then attached like a
+    sub-collection. *)
+| IMod (modname : string) (ad : option bool) (nsitem : item) (bind : option string) (default : bool).
 
 (** A listing row: indentation depth, displayed name, displayed aliases, and
     the task shown (None for a collection row). *)
